@@ -26,7 +26,7 @@ from .. import translate as T
 
 PID = "C05"
 TITLE = "Attributes are total maps with defaults; sparse and dense storage agree"
-LEAN_MODULES = ["Mouette.Props.C05", "Mouette.Props.C05Source"]
+LEAN_MODULES = ["Mouette.Props.C05", "Mouette.Props.C05Source", "Mouette.Props.C05SourceRun"]
 REQUIRED_THEOREMS = [
     "cast_lattice", "gen_canCast_eq", "gen_oobGuard_exact", "gen_zero_eq", "type_table_functional",
     "dense_refines", "sparse_refines", "sparse_dense_agree", "growth_aligned", "read_isolated",
@@ -42,6 +42,11 @@ REQUIRED_THEOREMS = [
     "createAttribute_warn_irrelevant", "deleteAttribute_bridge", "contClear_bridge", "getAttribute_bridge", "hasAttribute_len_bridge",
     # round 4: ANY number of attributes on one container sharing one heap, over the translated append / +=
     "append_all_attributes", "iadd_all_attributes",
+    # round 5: source-level step machine (every operation executed by the translated code) bridged to the hand model, and the history
+    # theorems restated about it end to end
+    "step_set", "dispGet_spec", "step_get", "step_upd", "step_clear", "step_asArray", "step_noattr", "createAttribute_good",
+    "step_create", "step_delete", "step_cclear", "dispatchExpand_good", "grow_some", "step_grow",
+    "srcStep_bridge", "srcRunObs_bridge", "src_dense_refines", "src_sparse_refines", "src_sparse_dense_agree",
 ]
 TRUSTED = [
     "Lean 4.33.0 kernel; axioms ⊆ {propext, Classical.choice, Quot.sound}",
@@ -53,7 +58,11 @@ TRUSTED = [
     "property, _check_default_value_type, _check_out_of_bounds; create/delete/get/has_attribute, DataContainer.clear / append / "
     "__iadd__ / __len__) are compiled statement by statement into Generated/C05Src.lean over the vocabulary "
     "Model/AttrSource.lean (meaning of the numpy / dict idioms) and tied to the hand model by bridge theorems "
-    "(Props/C05Source.lean); the sparse as_array is still hand-modelled",
+    "(Props/C05Source.lean); [round 5] the sparse as_array too, and a source-level step machine `srcRun` (Lemmas/AttrSourceRun.lean: every "
+    "operation of a script carried out by the translated definitions, the way the harness drives the library) is proved to give the "
+    "observations and states of the hand model (srcStep_bridge / srcRunObs_bridge), so that dense_refines / sparse_refines / "
+    "sparse_dense_agree are stated about translated code end to end (Props/C05SourceRun.lean); register_array_as_attribute is "
+    "oracle-only",
     "values are compared after widening to the attribute's type (True == 1 == 1.0 in Python); numpy view/copy rules are "
     "observed from outside (reads followed by in-place item assignment, also through read results kept alive across later "
     "writes / growth / clear, and through vectors the caller wrote)",
@@ -67,7 +76,8 @@ ASSUMPTIONS = [
     "strings shorter than 32 characters (dense dtype <U32), integers within int64, floats dyadic (exact in binary64/32)",
     "a scalar str is never offered to a vector attribute (Python would iterate its characters)",
 ]
-RULE = ("[round 4: both storages must agree on accepting / refusing a custom default of another type] [round 3: several attributes (sparse and dense at once) on one container incl. delete / re-create under the same name "
+RULE = ("[round 5: family t=reg — register_array_as_attribute over an existing attribute / on a bare container, (n,) and (n,k) arrays, narrow "
+        "dtypes (uint8 / int32 / float32), followed by ordinary operations (oracle-only, dense semantics)] [round 4: both storages must agree on accepting / refusing a custom default of another type] [round 3: several attributes (sparse and dense at once) on one container incl. delete / re-create under the same name "
         "(family t=multi); vector values offered as list / tuple / numpy array / Vec, numpy scalar components, numpy integer "
         "indices, `+=` of lists with repeated elements / tuples / sets] [round 2: plus reads kept alive and updated in place later (hold/muth), a[j] = a[i] (setfr), one caller vector written "
         "under several keys and updated by the caller afterwards (setsh)] random scripts (length <= 14 quick / <= 60 thorough) over 5 types x arity 1-3 x {implicit, custom default}, the same "
@@ -218,6 +228,17 @@ class _Run:
                 c.create_attribute("a", PYT[ty], k, dense=self.dense, default_value=None if d is None else tok_value(d))
                 self.ty, self.k = ty, k
                 return "-"
+            if kind == "reg":
+                # round 5: register_array_as_attribute("a", <(size,k) array>, default_value): the attribute is created FROM an array
+                import numpy as np
+                ty, k, rows, d = op[1], op[2], op[3], op[4]
+                o = op[5] if len(op) > 5 and isinstance(op[5], dict) else {}
+                dt = o.get("dtype") or {"bool": "bool_", "int": "int64", "float": "float64", "complex": "complex128", "str": "str_"}[ty]
+                arr = np.array([[tok_value(t) for t in r] for r in rows], dtype=("<U8" if dt == "str_" else getattr(np, dt))).reshape(len(rows), k)
+                if k == 1 and o.get("flat"): arr = arr[:, 0]
+                c.register_array_as_attribute("a", arr, default_value=None if d is None else tok_value(d))
+                self.ty, self.k = ty, k
+                return "-"
             if kind == "delete":
                 c.delete_attribute("a"); return "-"
             if kind == "cclear":
@@ -357,7 +378,7 @@ def mask(case, recs):
                     if not (0 <= key < int(size)): break
                     written.append(key)
             for key in written: taint.discard(key)
-        if kind in ("clear", "create", "delete", "cclear") and obs == "-":
+        if kind in ("clear", "create", "delete", "cclear", "reg") and obs == "-":
             origin = [None] * len(origin)
         if kind == "get" and op[1] in taint and not obs.startswith("err"):
             obs = "?"
@@ -376,8 +397,10 @@ def mask(case, recs):
             taint.add(op[1])
         if kind == "set" and obs == "-":
             taint.discard(op[1])
-        if kind in ("clear", "create", "delete", "cclear") and obs == "-":
+        if kind in ("clear", "create", "delete", "cclear", "reg") and obs == "-":
             taint.clear()
+        if kind == "reg" and obs == "-":
+            cur_k = op[2]
         out.append(f"{obs};{size};{ln}")
     return out
 
@@ -387,6 +410,8 @@ def impl_observe(case):
         from . import c05_multi
         return c05_multi.impl_observe(case)
     with _cfg(case):
+        if case.get("t") == "reg":       # the registered attribute is always array-backed: one replay (dense `create`s)
+            return "reg || " + " | ".join(mask(case, _trace(case, True)))
         return " | ".join(mask(case, _trace(case, False))) + " || " + " | ".join(mask(case, _trace(case, True)))
 
 
@@ -413,8 +438,8 @@ def model_request(case):
     if case.get("t") == "multi":
         from . import c05_multi
         return c05_multi.model_request(case)
-    if _str_scalar_on_vector(case):
-        return None
+    if _str_scalar_on_vector(case) or case.get("t") == "reg":
+        return None          # register_array_as_attribute: stated by the oracle and by the translated body (registerArray_bridge)
     toks = [str(case["n0"]), str(len(case["ops"]))]
     for op in case["ops"]:
         k = op[0]
@@ -581,6 +606,18 @@ def _oracle_mode(case, dense):
                 dflt = [tok_canon(ty, d if d is not None else {"bool": "b:0", "int": "i:0", "float": "f:0", "complex": "c:0,0", "str": "s:"}[ty])] * k
                 ref, taint = {}, set()
                 origin = [None] * len(origin)
+        elif kind == "reg":
+            d = op[4]
+            if len(op[3]) != size or size == 0 or (d is not None and tok_type(d) != op[1]):
+                if not failed: return out        # a mis-shaped array / a default of another type was accepted: nothing to state
+            else:
+                if failed:
+                    F("reg", f"raises({obs})", f"step {step}: register_array_as_attribute on a container of {size}: {op[:3]}"); return out
+                alive, ty, k = True, op[1], op[2]
+                dflt = [tok_canon(ty, d if d is not None else {"bool": "b:0", "int": "i:0", "float": "f:0", "complex": "c:0,0", "str": "s:"}[ty])] * k
+                ref = {i: [tok_canon(ty, t) for t in row] for i, row in enumerate(op[3])}       # every entry holds its row of the array
+                taint = set()
+                origin = [None] * len(origin)
         elif kind == "delete":
             if failed: F("delete", f"raises({obs})", f"step {step}"); return out
             alive = False
@@ -661,7 +698,7 @@ def oracle(case):
         return c05_multi.oracle(case)
     out = []
     with _cfg(case):
-        for dense in (False, True):
+        for dense in ((True,) if case.get("t") == "reg" else (False, True)):
             out += _oracle_mode(case, dense)
         out += _oracle_create_agree(case)
     return out
@@ -810,6 +847,41 @@ def _script(rng, maxlen):
     return {"n0": n0, "ops": ops}
 
 
+def _script_reg(rng, maxlen):
+    """round 5: an ordinary script with ONE register_array_as_attribute inserted (over an existing attribute or on a bare container);
+    the registered array has the type / arity of the attribute the rest of the script was written for"""
+    for _ in range(20):
+        c = _script(rng, maxlen)
+        ops = c["ops"]
+        # container size / live attribute signature before every position
+        size, sig, pos = c["n0"], None, []
+        for j, op in enumerate(ops + [None]):
+            if size >= 1: pos.append((j, size, sig))
+            if op is None: break
+            if op[0] == "create" and (op[3] is None or tok_type(op[3]) == op[1]): sig = (op[1], op[2])
+            elif op[0] == "append": size += 1
+            elif op[0] in ("extl", "extc"): size += op[1]
+            elif op[0] == "exts": size *= 2
+            elif op[0] == "cclear": size = 0
+        if not pos: continue
+        j, size, sig = rng.choice(pos)
+        later = next(((o[1], o[2]) for o in ops[j:] if o[0] == "create"), None)
+        ty, k = sig or later or (rng.choice(TYPES), rng.choice([1, 2, 3]))
+        # the rest of the script keeps writing values of the attribute it was generated for: use that signature
+        for o in ops:
+            if o[0] == "create": ty, k = (ty, k) if sig else (o[1], o[2]); break
+        rows = [[_scalar(rng, ty, numpy_ok=False) for _ in range(k)] for _ in range(size)]
+        d = _scalar(rng, ty, numpy_ok=False) if rng.random() < 0.4 else None
+        o = {}
+        if k == 1 and rng.random() < 0.5: o["flat"] = True
+        if ty in ("int", "float") and rng.random() < 0.3:
+            o["dtype"] = rng.choice({"int": ["int32", "uint8"], "float": ["float32"]}[ty])
+            if o["dtype"] == "uint8": rows = [[("i:" + t[2:].lstrip("-")) for t in r] for r in rows]
+        reg = ["reg", ty, k, rows, d] + ([o] if o else [])
+        return {"t": "reg", "n0": c["n0"], "ops": ops[:j] + [reg] + ops[j:]}
+    return {"t": "reg", "n0": 2, "ops": [["reg", "int", 1, [["i:1"], ["i:2"]], None], ["get", 1], ["append"], ["get", 2]]}
+
+
 def _alphabet():
     return [["set", 0, ["V", ["f:1/2", "i:2"]]], ["set", 1, ["V", ["f:3", "f:-1/4"]]], ["set", 2, ["V", ["f:1", "f:1"]]],
             ["set", 0, ["V", ["c:1,1", "f:0"]]], ["get", 0], ["get", 2], ["mut", 0, 1, "f:7"], ["mut", 1, 0, "f:5"],
@@ -827,6 +899,10 @@ def cases(rng, tier):
     for _ in range(n):
         c = _script(rng, maxlen)
         if rng.random() < 0.12: c["warn"] = True      # round 4: duplicate-attribute warning switched on (create over an existing name)
+        yield c
+    for _ in range(300 if tier == "quick" else 2500):       # round 5: register_array_as_attribute (oracle-only family)
+        c = _script_reg(rng, maxlen if tier == "quick" else 30)
+        if rng.random() < 0.2: c["warn"] = True
         yield c
     # round 3: several attributes (sparse and dense at once) on one container
     from . import c05_multi
@@ -852,6 +928,10 @@ def search_on_break(rng, broken, mismatches):
         c = _script(rng, 20)
         if j % 8 == 0: c["warn"] = True
         yield c
+    for j in range(300):
+        c = _script_reg(rng, 16)
+        if j % 4 == 0: c["warn"] = True
+        yield c
     from . import c05_multi
     for _ in range(400):
         yield c05_multi.script(rng, 16)
@@ -865,7 +945,7 @@ def nontrivial(case, obs):
     wrote = False
     for op, rec in zip(case["ops"], recs):
         o = rec.rsplit(";", 2)[0]
-        if op[0] in ("set", "setfr", "setsh") and o == "-": wrote = True
+        if op[0] in ("set", "setfr", "setsh", "reg") and o == "-": wrote = True
         if wrote and op[0] in ("get", "arr", "hold") and not o.startswith("err"): return True
     return False
 
@@ -885,6 +965,14 @@ def classify(case, obs):
             if o == "?": ks.append(f"{mode}:masked-read")
     ks.append(f"len:{min(len(case['ops']) // 5 * 5, 60)}+")
     if case.get("warn"): ks.append("config:duplicate-warning=on")
+    al = False
+    for op in case["ops"]:
+        if op[0] == "reg":
+            ks.append("reg:over-existing" if al else "reg:fresh"); al = True
+            if len(op) > 5 and op[5].get("flat"): ks.append("reg:flat-1d")
+            if len(op) > 5 and op[5].get("dtype"): ks.append("reg:dtype=" + op[5]["dtype"])
+        elif op[0] == "create": al = True
+        elif op[0] in ("delete", "cclear"): al = False
     alive = deleted = cleared = False
     for op in case["ops"]:
         if op[0] == "create":
@@ -1107,7 +1195,11 @@ def translate():
     _SRC_STATUS.clear(); _SRC_STATUS.update(src_status)
     if src_body is not None:
         T.write_generated("C05Src", src_body)
+    else:
+        T.write_generated("C05Src", _stub("C05Src", "import Mouette.Model.AttrSource\nimport Mouette.Generated.C05\n", src_sites))
     n_old = len(sites)
+    if not all(s["ok"] for s in sites[:4]):
+        T.write_generated("C05", _stub("C05", "import Mouette.Model.Attr\n", sites[:4]))
     if all(s["ok"] for s in sites[:4]):
         body = ("import Mouette.Model.Attr\nnamespace Mouette.Generated.C05\nopen Mouette.Attr\n\n" + chunks["casts"] + "\n" + chunks["types"] + "\n"
                 + chunks["defaults"] + "\n" + chunks["guard"] + "\nend Mouette.Generated.C05\n")
@@ -1118,7 +1210,17 @@ def translate():
             "DataContainer.append", "DataContainer.__iadd__"]
     if all(src_status.get(q) for q in need):
         T.write_generated("C05Storage", _STORAGE_TEXT)
+    else:
+        T.write_generated("C05Storage", _stub("C05", "import Mouette.Model.Attr\n", [x for x in src_sites if not x["ok"]]))
     return sites + src_sites
+
+
+def _stub(ns, imports, sites):
+    """round 5: what is written INSTEAD of a generated file when a site of the CURRENT tree is not recognised — an empty namespace, so
+    that the bridges fail to build against this tree (and the build log never talks about the file generated from an earlier tree)"""
+    bad = [f"   {x['site']}: {x['detail'][:160]}" for x in sites if not x["ok"]]
+    return (imports + f"/- STUB: the translation of the current source tree failed, nothing is defined here.\n" + "\n".join(bad).replace("-/", "- /").replace("/-", "/ -")
+            + f"\n-/\nnamespace Mouette.Generated.{ns}\nend Mouette.Generated.{ns}\n")
 
 
 _SRC_STATUS = {}
@@ -1167,7 +1269,7 @@ SOURCE_MAP = {
     _A + "Attribute._expand": "translated",             # sparseExpand; expand_bridge
     _A + "Attribute.__len__": "translated",             # sparseLen; len_bridge
     _A + "Attribute.__iter__": "out-of-scope: iteration over the non-default keys, not part of the statement",
-    _A + "Attribute.as_array": "modelled",              # Model.Attr.sparseArray (np.full + row writes in dict order)
+    _A + "Attribute.as_array": "translated",            # sparseAsArray; sparseAsArray_exact (Lemmas), step_asArray, src_sparse_refines
     _A + "Attribute.clear": "translated",               # sparseClear; sparseClear_bridge
     _A + "ArrayAttribute.__init__": "translated",       # denseInit; init_bridge
     _A + "ArrayAttribute._check_out_of_bounds": "translated",   # checkOutOfBounds + oobGuard; checkOutOfBounds_bridge, gen_oobGuard_exact
@@ -1182,7 +1284,7 @@ SOURCE_MAP = {
     _D + "_BaseDataContainer.empty": _OOS_ABS, _D + "_BaseDataContainer.clear": _OOS_ABS, _D + "_BaseDataContainer.append": _OOS_ABS,
     _D + "_BaseDataContainer.attributes": "out-of-scope: key view of the attribute dict",
     _D + "_BaseDataContainer.create_attribute": "translated",     # createAttribute; createAttribute_bridge
-    _D + "_BaseDataContainer.register_array_as_attribute": "out-of-scope: adopts a caller array as dense storage; the statement's histories start from create_attribute and the harness never calls it",
+    _D + "_BaseDataContainer.register_array_as_attribute": "oracle-only",      # round 5: driven (family t=reg: over an existing name / on a bare container, 1-D and narrow-dtype arrays); two defects repaired
     _D + "_BaseDataContainer.delete_attribute": "translated",     # deleteAttribute; deleteAttribute_bridge
     _D + "_BaseDataContainer.has_attribute": "translated",        # hasAttribute; hasAttribute_len_bridge
     _D + "_BaseDataContainer.get_attribute": "translated",        # getAttribute; getAttribute_bridge
